@@ -634,8 +634,37 @@ fn diamond() {
         }
         bad
     });
-    let ok = ok && tri.is_empty();
-    println!("{{\"all_defaults\":{ok},\"rounds\":{:?},\"three_cycle_with_concurrent_siblings\":{:?}}}", rounds, tri);
+    // a query that only READS a cycle member, requested concurrently while the member is known to be
+    // on the cycle but still computing (it waits for a slow off-cycle sibling): the reader is outside
+    // the cycle and evaluates from the member's default.
+    let (cyc_a, cyc_b, slow, reader) = (n(500), n(501), n(502), n(503));
+    let mut prog4 = Program::default();
+    prog4.exprs.insert(cyc_a, Expr::Spawn(vec![cyc_b, slow]));
+    prog4.exprs.insert(cyc_b, plus(Expr::Read(cyc_a), 20));
+    prog4.exprs.insert(slow, Expr::Delay(700, Box::new(Expr::Const(7))));
+    prog4.exprs.insert(reader, plus(Expr::Read(cyc_a), 1000));
+    let mut rd = Vec::new();
+    for round in 0..3 {
+        let w4 = World::new(prog4.clone(), 0);
+        let r = runtime.block_on(async {
+            tokio::time::timeout(Duration::from_secs(20), async {
+                let engine = open_mem(&w4).await;
+                { let mut s = engine.input_session().await; s.set_input(Var(0), 0).await; s.commit().await; }
+                let ha = { let e = engine.clone(); tokio::spawn(async move { let t = e.tracked().await; query_node(&t, cyc_a).await }) };
+                tokio::time::sleep(Duration::from_millis(250)).await;
+                let hr = { let e = engine.clone(); tokio::spawn(async move { let t = e.tracked().await; query_node(&t, reader).await }) };
+                let a = ha.await.unwrap_or(i64::MIN);
+                let r = hr.await.unwrap_or(i64::MIN);
+                let t = engine.tracked().await;
+                let b = query_node(&t, cyc_b).await;
+                let r2 = query_node(&t, reader).await;
+                vec![a, b, r, r2]
+            }).await
+        });
+        match r { Ok(v) if v == vec![-1, -1, 999, 999] => {}, Ok(v) => rd.push(format!("round {round}: (CycA, CycB, Reader requested concurrently, Reader again) = {v:?}, expected [-1, -1, 999, 999]: Reader = CycA + 1000 only reads the cycle CycA <-> CycB")), Err(_) => rd.push(format!("round {round}: hangs")) }
+    }
+    let ok = ok && tri.is_empty() && rd.is_empty();
+    println!("{{\"all_defaults\":{ok},\"rounds\":{:?},\"three_cycle_with_concurrent_siblings\":{:?},\"concurrent_reader_of_cycle_member\":{:?}}}", rounds, tri, rd);
     std::process::exit(0);
 }
 
